@@ -79,7 +79,7 @@ def run(chk):
     chk.trusted += ['harness whitespace collapse (XSD whiteSpace=collapse) applied before the Coq recognizers',
                     'Gen/C10Tables.v: bounds dumped from the classes (T-data)',
                     "CPython's codecs / base64 / int() / float() / Decimal are externals reached through the constructors",
-                    'PARTIAL: date/time, duration, QName, URI and string-derived lexical spaces: agreement of the cast paths only']
+                    'PARTIAL: QName, URI and string-derived lexical spaces: agreement of the cast paths only (date / time / duration lexical spaces: C10/DateLex.v)']
     for f in ('elementpath/datatypes/numeric.py', 'elementpath/datatypes/proxies.py', 'elementpath/datatypes/binary.py', 'elementpath/datatypes/any_types.py',
               'elementpath/xpath2/_xpath2_constructors.py', 'elementpath/xpath2/_xpath2_operators.py', 'elementpath/xpath_tokens/base.py', 'elementpath/helpers.py'):
         chk.record_source(f)
@@ -338,6 +338,9 @@ def run(chk):
             elif len(set(ok.values())) > 1 or len(vals) > 1:
                 chk.violation('impl-vs-spec', desc, {'paths disagree': {k: repr(o) for k, o in out.items()}})
             chk.nontrivial.add(tname + ':' + s)
+    # ---------------- 6. lexical spaces of the date / time / duration types against the recognisers of C10/DateLex.v, in both
+    #                    XSD year numberings: class.fromstring, is_valid, xs:T(), cast as, castable as, xs:T(untypedAtomic)
+    date_lexical_section(chk, rng, quick, model_ok)
     # ---- the casting table (F&O 19.1) over 21 source x 21 target types: castable as / cast as / constructor function
     CT = ['untypedAtomic', 'string', 'float', 'double', 'decimal', 'integer', 'duration', 'yearMonthDuration', 'dayTimeDuration', 'dateTime',
           'time', 'date', 'gYearMonth', 'gYear', 'gMonthDay', 'gDay', 'gMonth', 'boolean', 'base64Binary', 'hexBinary', 'anyURI']
@@ -449,6 +452,147 @@ def run(chk):
                 'non-trivial = distinct (type, string)')
     chk.obligations.append({'name': 'correspondence:impl==model(lexical spaces, bounds, codecs)', 'ok': not chk.corr_fail and not any(v['kind'] == 'impl-vs-spec' for v in chk.violations),
                             'detail': (repr(chk.corr_fail[0])[:400] if chk.corr_fail else 'see violations')})
+
+
+def date_lexical_section(chk, rng, quick, model_ok):
+    from decimal import Decimal
+    from elementpath import select, ElementPathError
+    from elementpath.xpath31 import XPath31Parser
+    from elementpath import datatypes as dt
+    proved = chk.prove(['theories/Common/PyCalendar.v', 'theories/C10/Model.v', 'theories/C10/DateLex.v', 'theories/C10/DateLexProofs.v'],
+                       'theories/C10/DateLexProperties.v')
+    KINDS = {'date': (0, dt.Date10, dt.Date), 'dateTime': (1, dt.DateTime10, dt.DateTime), 'time': (2, dt.Time, dt.Time),
+             'gYear': (3, dt.GregorianYear10, dt.GregorianYear), 'gYearMonth': (4, dt.GregorianYearMonth10, dt.GregorianYearMonth),
+             'gMonth': (5, dt.GregorianMonth, dt.GregorianMonth), 'gDay': (6, dt.GregorianDay, dt.GregorianDay),
+             'gMonthDay': (7, dt.GregorianMonthDay, dt.GregorianMonthDay), 'duration': (8, dt.Duration, dt.Duration),
+             'dayTimeDuration': (9, dt.DayTimeDuration, dt.DayTimeDuration), 'yearMonthDuration': (10, dt.YearMonthDuration, dt.YearMonthDuration)}
+    SEEDS = {
+        'date': ['2000-01-01', '2000-02-29', '1900-02-29', '-0001-02-29', '0000-02-29', '-0004-02-29', '-0005-02-29', '12000-12-31Z', '2000-01-01+14:00',
+                 '2000-01-01-13:59', '0001-01-01', '-0000-01-01', '02000-01-01', '99999-06-30+00:00', '2000-04-31', '2000-13-01', '2000-00-10', '2000-01-00',
+                 '2000-01-01+14:01', '2000-01-01+5:00', '200-01-01', '2000-1-01', '+2000-01-01', '2000-01-01z', '2000-01-01Z ', '2100-02-29', '2400-02-29'],
+        'dateTime': ['2000-01-01T00:00:00', '2000-01-01T24:00:00', '2000-01-01T24:00:00.000', '2000-01-01T23:59:59.999999Z', '-0001-12-31T24:00:00',
+                     '2000-01-01T00:00:60', '2000-01-01T12:00:00.5+05:30', '2000-01-01T24:00:01', '2000-02-30T00:00:00', '10000-01-01T00:00:00-14:00',
+                     '2000-01-01T24:00:00.001', '2000-01-01T12:00:00.', '2000-01-01T12:00', '2000-01-01 12:00:00', '2000-01-01t12:00:00', '2000-01-01T1:00:00',
+                     '0000-01-01T00:00:00', '2000-01-01T23:59:59.1234567'],
+        'time': ['00:00:00', '24:00:00', '23:59:59.5Z', '12:00:00+14:00', '12:00:00-14:01', '24:00:00.0', '24:00:00.1', '12:60:00', '12:00:60', '25:00:00',
+                 '12:00:00.', '1:00:00', '12:00', '12:00:00+00:00', '12:00:00-00:00', '12:00:00Z+01:00'],
+        'duration': ['P1Y', 'P1Y2M3DT4H5M6.7S', '-P1D', 'PT1S', 'PT1.5S', 'P', 'PT', 'P1YT', 'P1M2Y', 'PT1M1H', 'P1.5Y', 'PT.5S', 'PT1.S', 'P0D', '-PT0S', 'P1Y1D',
+                     '+P1D', 'P-1D', 'p1d', 'P1DT1.5M', 'P1D1H', 'PT1H1D', 'P01Y', 'PT0.000001S', 'PT1S1S', 'P1Y1Y', '--P1D', 'P1DT0.1234567S'],
+        'dayTimeDuration': ['P1D', 'PT1H', 'P1DT1H1M1.1S', 'P1Y', '-P1DT', 'P1M', 'PT1M', 'P0Y', 'P0M1D', 'P0Y0M0DT0S', '-P0D', 'PT36H', 'P'],
+        'yearMonthDuration': ['P1Y', 'P1M', 'P1Y1M', 'P1D', '-P1Y', 'P1YT', 'P0D', 'P1YT0S', 'P14M', '-P0M', 'P1Y0D', 'P'],
+        'gYear': ['2000', '-2000', '0000', '-0001', '20000', '02000', '2000Z', '2000+14:00', '-0000', '200', '2000-01', '+2000'],
+        'gYearMonth': ['2000-01', '2000-13', '-0001-12Z', '0000-01', '2000-00', '2000-1', '20000-12+01:00', '2000-01-01'],
+        'gMonth': ['--01', '--12Z', '--13', '--00', '--1', '-01', '--01--', '--01+14:00'], 'gDay': ['---01', '---31+01:00', '---32', '---00', '---1', '--01'],
+        'gMonthDay': ['--02-29', '--02-30', '--12-31Z', '--04-31', '--00-01', '--01-00', '--1-01', '--06-30-05:00', '--11-31']}
+    CH = '0123456789-+:.TZPYMDHS '
+    cases = []
+    for name, seeds in SEEDS.items():
+        ss = list(seeds)
+        for s0 in seeds:
+            for _ in range(6 if quick else 150):
+                t = list(s0)
+                for _ in range(rng.randint(1, 2)):
+                    r = rng.random()
+                    if r < 0.4 and t:
+                        t[rng.randrange(len(t))] = rng.choice(CH)
+                    elif r < 0.7:
+                        t.insert(rng.randint(0, len(t)), rng.choice(CH))
+                    elif t:
+                        del t[rng.randrange(len(t))]
+                ss.append(''.join(t))
+        for s1 in dict.fromkeys(ss):
+            s1 = decorate(rng, s1) if rng.random() < 0.1 else s1
+            for v11 in (False, True):
+                cases.append((name, v11, s1))
+    model = core.run_coq_cases('C10', IMPORTS, [f"run_datelex {KINDS[n][0]} {'true' if v else 'false'} {zs(collapse(s1))}" for n, v, s1 in cases],
+                               chunk=500, tag='datelex', preamble='Open Scope Z_scope.') if model_ok else [None] * len(cases)
+
+    def lex_year_of(v, v11):
+        y = v.year
+        return y if (y > 0 or not v11) else y + 1
+
+    def tz_of(v):
+        return 9999 if v.tzinfo is None else int(v.tzinfo.offset.total_seconds()) // 60
+
+    def fields(name, v, v11):
+        if name == 'date':
+            return [lex_year_of(v, v11), v.month, v.day, tz_of(v)]
+        if name == 'dateTime':
+            return [lex_year_of(v, v11), v.month, v.day, v.hour, v.minute, v.second, v.microsecond, tz_of(v)]
+        if name == 'time':
+            return [v.hour, v.minute, v.second, v.microsecond, tz_of(v)]
+        if name == 'gYear':
+            return [lex_year_of(v, v11), tz_of(v)]
+        if name == 'gYearMonth':
+            return [lex_year_of(v, v11), v.month, tz_of(v)]
+        if name == 'gMonth':
+            return [v.month, tz_of(v)]
+        if name == 'gDay':
+            return [v.day, tz_of(v)]
+        if name == 'gMonthDay':
+            return [v.month, v.day, tz_of(v)]
+        return [v.months, int(Decimal(v.seconds) * 1000000)]
+
+    for (name, v11, s1), mo in zip(cases, model):
+        chk.evaluations += 1
+        chk.count('datelex:' + name)
+        if mo is None:
+            continue
+        mo = list(mo)
+        want = bool(mo)
+        cls = KINDS[name][2 if v11 else 1]
+        desc = {'type': 'xs:' + name, 'xsd_version': '1.1' if v11 else '1.0', 'string': ascii(s1)}
+        try:
+            v = cls.fromstring(s1)
+            got = True
+        except (ValueError, TypeError, OverflowError):
+            got, v = False, None
+        except Exception as e:
+            chk.violation('foreign-exception', desc, repr(e)[:200])
+            continue
+        if got != want:
+            chk.violation('impl-vs-spec', desc, {'constructor accepts': got, 'in the lexical space': want})
+            continue
+        try:
+            iv = cls.is_valid(collapse(s1))
+        except Exception as e:
+            chk.violation('foreign-exception', desc | {'path': 'is_valid'}, repr(e)[:200])
+            continue
+        if iv != want:
+            chk.violation('impl-vs-spec', desc, {'is_valid (collapsed)': iv, 'in the lexical space': want})
+        # the fields of the value (24:00:00 is the next day: the components are C11's; fractions beyond microseconds are cut)
+        if want and not (name in ('dateTime', 'time') and mo[4 if name == 'dateTime' else 1] == 24):
+            fs = fields(name, v, v11)
+            frac_long = name in ('duration', 'dayTimeDuration') and '.' in s1 and len(s1.split('.')[1].rstrip('S ')) > 6
+            if fs != mo[1:] and not frac_long:
+                chk.violation('impl-vs-spec', desc, {'fields of the value': fs, 'fields of the lexical form': mo[1:]})
+        # the XPath paths
+        P = XPath31Parser(xsd_version='1.1') if v11 else XPath31Parser()
+        for label, expr in (('constructor', f'xs:{name}($s)'), ('cast', f'$s cast as xs:{name}'), ('castable', f'$s castable as xs:{name}'),
+                            ('untyped', f'xs:{name}(xs:untypedAtomic($s))')):
+            try:
+                from elementpath import XPathContext
+                r = P.parse(expr).evaluate(XPathContext(root=_lex_root(), variables={'s': s1}))
+                ok = (r is True) if label == 'castable' else True
+            except ElementPathError:
+                ok = False
+            except Exception as e:
+                chk.violation('foreign-exception', desc | {'path': label}, repr(e)[:200])
+                continue
+            if ok != want:
+                chk.violation('impl-vs-spec', desc | {'path': label}, {'succeeds': ok, 'in the lexical space': want})
+        if want:
+            chk.nontrivial.add(repr(('datelex', name, v11, s1)))
+
+
+_LEX_ROOT = []
+
+
+def _lex_root():
+    if not _LEX_ROOT:
+        import xml.etree.ElementTree as ET
+        _LEX_ROOT.append(ET.XML('<r/>'))
+    return _LEX_ROOT[0]
 
 
 def replay(rec):
